@@ -10,6 +10,7 @@ package main
 import (
 	"fmt"
 	"io"
+	"net"
 	"net/http"
 	"net/http/httptest"
 	"strings"
@@ -32,7 +33,8 @@ type stub struct {
 	srv      *httptest.Server
 	url      string
 	mu       sync.Mutex
-	healthy  bool
+	answer   int  // what /healthz answers: HTTP status; -1 hang; -2 close the connection; 1200 = 200 with a body other than "ok"
+	dead     bool // nothing listens at url: connection refused
 	inSpec   bool // some spelling of this stub is a server of the current spec
 	mayRecv  bool // ... and at least one such spelling is not marked disabled (spellings are distinct endpoints for the gateway)
 	probes   int
@@ -50,12 +52,34 @@ func (s *stub) ServeHTTP(w http.ResponseWriter, r *http.Request) {
 		} else if !s.mayRecv {
 			s.viol = append(s.viol, "stub "+s.url+" received a /healthz probe while every server entry naming it is marked disabled")
 		}
-		if s.healthy {
+		switch a := s.answer; {
+		case a == -1: // hang until the client gives up (its timeout is 5 s)
+			s.mu.Unlock()
+			select {
+			case <-r.Context().Done():
+			case <-time.After(8 * time.Second):
+			}
+			s.mu.Lock()
+		case a == -2: // close the connection without an answer
+			if hj, ok := w.(http.Hijacker); ok {
+				if conn, _, err := hj.Hijack(); err == nil {
+					conn.Close()
+				}
+			}
+		case a == 1200:
+			w.WriteHeader(200)
+			io.WriteString(w, "not ok")
+		case a == 200:
 			w.WriteHeader(200)
 			io.WriteString(w, "ok")
-		} else {
-			w.WriteHeader(500)
-			io.WriteString(w, "scripted failure")
+		case a == 204:
+			w.WriteHeader(204)
+		case a == 301:
+			w.Header().Set("Location", "")
+			w.WriteHeader(301)
+		default:
+			w.WriteHeader(a)
+			io.WriteString(w, "scripted answer")
 		}
 		return
 	}
@@ -83,6 +107,11 @@ func theStubs() []*stub {
 			s.url = s.srv.URL
 			stubs = append(stubs, s)
 		}
+		// one more "server" where nothing listens: every probe is refused
+		if l, err := net.Listen("tcp", "127.0.0.1:0"); err == nil {
+			stubs = append(stubs, &stub{url: "http://" + l.Addr().String(), dead: true, answer: -3})
+			l.Close()
+		}
 	})
 	return stubs
 }
@@ -94,12 +123,49 @@ func (fakeRW) ResponseSize() int { return 0 }
 func (fakeRW) Status() int       { return 0 }
 func (fakeRW) AddedInfo() string { return "" }
 
+var healthyCache = map[string]bool{}
+
+// modelHealthy asks the Lean model (gatewayHealthCheck) whether a /healthz answer makes an endpoint healthy.
+func modelHealthy(c *rig.Ctx, code int, bodyOK bool) (bool, error) {
+	k := fmt.Sprintf("%d/%v", code, bodyOK)
+	if h, ok := healthyCache[k]; ok {
+		return h, nil
+	}
+	var h bool
+	if err := c.Model("C03.healthy", map[string]interface{}{"code": code, "body_ok": bodyOK}, &h); err != nil {
+		return false, err
+	}
+	healthyCache[k] = h
+	return h, nil
+}
+
+func answersText(op DOp) string {
+	if op.Answers == nil {
+		return fmt.Sprint(op.Healthy)
+	}
+	l := make([]string, len(op.Answers))
+	for i, a := range op.Answers {
+		switch a {
+		case -1:
+			l[i] = "hang"
+		case -2:
+			l[i] = "close"
+		case 1200:
+			l[i] = "200(not ok)"
+		default:
+			l[i] = fmt.Sprint(a)
+		}
+	}
+	return fmt.Sprint(l)
+}
+
 // DOp is one op of an end-to-end history: "sync" (stub indices), "health" (flip a stub), "trigger", "request".
 type DOp struct {
 	Op       string  `json:"op"`
 	Servers  []DSrv  `json:"servers"`
 	Subsets  [][]int `json:"subsets"`
-	Healthy  []bool  `json:"healthy"` // health of every stub from this op on
+	Healthy  []bool  `json:"healthy"` // health of every stub from this op on (true = 200 "ok", false = 500), unless Answers is given
+	Answers  []int   `json:"answers"` // what every stub's /healthz answers from this op on (see stub.answer)
 	Stub     int     `json:"stub"`
 	Policy   int     `json:"policy"`
 }
@@ -149,9 +215,9 @@ func readableD(cs DCase) string {
 				}
 				subs = append(subs, fmt.Sprint(l))
 			}
-			fmt.Fprintf(&b, "sync servers=%v subsets=%v healthy=%v", s, subs, op.Healthy)
+			fmt.Fprintf(&b, "sync servers=%v subsets=%v /healthz answers=%s", s, subs, answersText(op))
 		case "trigger":
-			fmt.Fprintf(&b, "trigger(%s) healthy=%v", refName(op.Stub), op.Healthy)
+			fmt.Fprintf(&b, "trigger(%s) /healthz answers=%s", refName(op.Stub), answersText(op))
 		case "request":
 			fmt.Fprintf(&b, "request for policy %d", op.Policy)
 		}
@@ -171,19 +237,41 @@ func runDispatch(c *rig.Ctx, cs DCase, record bool, st *stats) bool {
 		return false
 	}
 	ss := theStubs()
+	var modelErr error
 	urlOf := func(r int) string { return ss[(r%10)%len(ss)].url + spellSuffix[(r/10)%len(spellSuffix)] }
 	hexOf := func(r int) string { return rig.Hex(urlOf(r)) }
 	// translate to the in-process vocabulary (for the planning run and the judge)
 	var ops []lib.Op
-	upOf := func(h []bool) []lib.UpEnt {
-		var u []lib.UpEnt
+	answersOf := func(d DOp) []int {
+		a := make([]int, len(ss))
 		for i := range ss {
-			v := false
-			if i < len(h) {
-				v = h[i]
+			switch {
+			case ss[i].dead:
+				a[i] = -3
+			case i < len(d.Answers):
+				a[i] = d.Answers[i]
+			case i < len(d.Healthy) && d.Healthy[i]:
+				a[i] = 200
+			default:
+				a[i] = 500
+			}
+		}
+		return a
+	}
+	upOf := func(d DOp) []lib.UpEnt {
+		var u []lib.UpEnt
+		for i, a := range answersOf(d) {
+			code, bodyOK := a, true
+			if a == 1200 {
+				code, bodyOK = 200, false
+			}
+			h, err := modelHealthy(c, code, bodyOK)
+			if err != nil {
+				modelErr = err
 			}
 			for sp := range spellSuffix {
-				u = append(u, lib.UpEnt{N: hexOf(i + 10*sp), H: v})
+				cc, bb := code, bodyOK
+				u = append(u, lib.UpEnt{N: hexOf(i + 10*sp), H: h, Code: &cc, BodyOK: &bb})
 			}
 		}
 		return u
@@ -194,7 +282,7 @@ func runDispatch(c *rig.Ctx, cs DCase, record bool, st *stats) bool {
 		opIndex[i] = len(ops)
 		switch d.Op {
 		case "sync":
-			o := lib.Op{Op: "sync", Servers: []lib.Server{}, Policies: [][]string{}, Up: upOf(d.Healthy)}
+			o := lib.Op{Op: "sync", Servers: []lib.Server{}, Policies: [][]string{}, Up: upOf(d)}
 			for _, s := range d.Servers {
 				o.Servers = append(o.Servers, lib.Server{Ep: hexOf(s.Stub), Dis: s.Dis})
 			}
@@ -207,13 +295,16 @@ func runDispatch(c *rig.Ctx, cs DCase, record bool, st *stats) bool {
 			}
 			ops = append(ops, o)
 		case "trigger":
-			ops = append(ops, lib.Op{Op: "trigger", N: hexOf(d.Stub), Up: upOf(d.Healthy)})
+			ops = append(ops, lib.Op{Op: "trigger", N: hexOf(d.Stub), Up: upOf(d)})
 		case "request":
 			ops = append(ops, lib.Op{Op: "match", Policy: d.Policy}, lib.Op{Op: "pop", Picker: matches})
 			matches++
 		default:
 			return true
 		}
+	}
+	if modelErr != nil {
+		return fail("diff", "c03.model-error", "model error "+modelErr.Error(), nil)
 	}
 	var plan modelReply
 	if err := c.Model("C03.run", map[string]interface{}{"ops": ops}, &plan); err != nil {
@@ -224,7 +315,10 @@ func runDispatch(c *rig.Ctx, cs DCase, record bool, st *stats) bool {
 	}
 	for _, s := range ss {
 		s.mu.Lock()
-		s.inSpec, s.mayRecv, s.healthy, s.probes, s.requests, s.viol = false, false, false, 0, nil, nil
+		s.inSpec, s.mayRecv, s.probes, s.requests, s.viol = false, false, 0, nil, nil
+		if !s.dead {
+			s.answer = 500
+		}
 		s.mu.Unlock()
 	}
 	w := lib.NewWorld()
@@ -242,11 +336,11 @@ func runDispatch(c *rig.Ctx, cs DCase, record bool, st *stats) bool {
 	matches = 0
 	for i, d := range cs.Dispatch {
 		k := opIndex[i]
-		setHealth := func(h []bool) {
-			for j, s := range ss {
-				s.mu.Lock()
-				s.healthy = j < len(h) && h[j]
-				s.mu.Unlock()
+		setHealth := func(d DOp) {
+			for j, a := range answersOf(d) {
+				ss[j].mu.Lock()
+				ss[j].answer = a
+				ss[j].mu.Unlock()
 			}
 		}
 		workers := -1
@@ -254,7 +348,7 @@ func runDispatch(c *rig.Ctx, cs DCase, record bool, st *stats) bool {
 		msg, panicked := rig.Recover(func() {
 			switch d.Op {
 			case "sync":
-				setHealth(d.Healthy)
+				setHealth(d)
 				// an endpoint (one spelling) is disabled if any entry with that spelling says so; a stub may be contacted
 				// iff some spelling naming it is a server and is not disabled
 				disabledRef := map[int]bool{}
@@ -281,7 +375,7 @@ func runDispatch(c *rig.Ctx, cs DCase, record bool, st *stats) bool {
 				curSubsets, curServers = d.Subsets, d.Servers
 				workers = w.EnabledInSpec()
 			case "trigger":
-				setHealth(d.Healthy)
+				setHealth(d)
 				w.SetUp(ops[k].Up)
 				if e, ok := w.Load(ops[k].N); ok {
 					e.TriggerHealthCheck()
@@ -424,6 +518,9 @@ func runDispatch(c *rig.Ctx, cs DCase, record bool, st *stats) bool {
 		if v := w.DrainViol(); len(v) > 0 {
 			return fail("judge", "c03.probe-disabled", fmt.Sprintf("end-to-end op %d (%s): %s", i, d.Op, v[0]), nil)
 		}
+		if v := w.DrainDecisionViol(); len(v) > 0 {
+			return fail("judge", "c03.probe-decision", fmt.Sprintf("end-to-end op %d (%s): %s; only the answer HTTP 200 makes an endpoint healthy", i, d.Op, v[0]), nil)
+		}
 		if unsettled != "" {
 			if strings.HasPrefix(unsettled, "workers:") {
 				return fail("judge", "c03.probing-set", fmt.Sprintf("after end-to-end op %d (%s) with %d enabled servers: %s", i, d.Op, workers, unsettled), nil)
@@ -442,6 +539,9 @@ func runDispatch(c *rig.Ctx, cs DCase, record bool, st *stats) bool {
 	// every probe the gateway made arrived at the stub it was meant for
 	eps, _, _ := w.Snapshot()
 	for _, s := range ss {
+		if s.dead { // nothing listens there: the refused probes cannot be counted
+			continue
+		}
 		made := 0
 		for _, e := range eps {
 			if n := rig.UnHex(e.N); n == s.url || strings.HasPrefix(n, s.url+"/") {
@@ -485,12 +585,26 @@ func runDispatch(c *rig.Ctx, cs DCase, record bool, st *stats) bool {
 func genDispatch(c *rig.Ctx) DCase {
 	r := c.Rng
 	ns := len(theStubs())
-	health := func() []bool {
-		h := make([]bool, ns)
-		for i := range h {
-			h[i] = r.Intn(5) != 0
+	pHealthy := []float64{0.55, 0.75, 0.9}[r.Intn(3)]
+	answers := func() []int {
+		a := make([]int, ns)
+		for i := range a {
+			switch x := r.Float64(); {
+			case x < pHealthy:
+				a[i] = 200
+			case x < pHealthy+0.02:
+				a[i] = 1200 // 200 with another body: healthy for the current code
+			default:
+				// 2xx other than 200 (no error from the rest client!), redirect, client and server errors, closed connection
+				a[i] = rig.Pick(r, []int{201, 204, 206, 201, 204, 206, 202, 203, 205, 301, 401, 404, 500, 503, 429})
+				if r.Intn(120) == 0 {
+					// hang, or a connection closed without answer (client-go retries a GET on EOF once a second): every probe of
+					// this stub then costs the client's 5 s timeout, so these are rare
+					a[i] = -1 - r.Intn(2)
+				}
+			}
 		}
-		return h
+		return a
 	}
 	var servers []DSrv
 	ref := func(stub int) int { // mostly the plain spelling
@@ -538,14 +652,14 @@ func genDispatch(c *rig.Ctx) DCase {
 			subsets = append(subsets, s)
 		}
 		r.Shuffle(len(subsets), func(i, j int) { subsets[i], subsets[j] = subsets[j], subsets[i] })
-		return DOp{Op: "sync", Servers: append([]DSrv{}, servers...), Subsets: subsets, Healthy: health()}
+		return DOp{Op: "sync", Servers: append([]DSrv{}, servers...), Subsets: subsets, Answers: answers()}
 	}
 	for i := 0; i < ns; i++ {
 		if r.Intn(4) != 0 {
 			servers = append(servers, DSrv{Stub: ref(i), Dis: r.Intn(5) == 0})
 		}
 	}
-	first := DOp{Op: "sync", Servers: append([]DSrv{}, servers...), Subsets: [][]int{{}, {ref(r.Intn(ns)), ref(r.Intn(ns))}}, Healthy: health()}
+	first := DOp{Op: "sync", Servers: append([]DSrv{}, servers...), Subsets: [][]int{{}, {ref(r.Intn(ns)), ref(r.Intn(ns))}}, Answers: answers()}
 	cs := DCase{Dispatch: []DOp{first}}
 	npol := 2
 	for n := 4 + r.Intn(12); len(cs.Dispatch) < n; {
@@ -559,7 +673,7 @@ func genDispatch(c *rig.Ctx) DCase {
 			if len(servers) > 0 && r.Intn(3) != 0 {
 				t = servers[r.Intn(len(servers))].Stub
 			}
-			cs.Dispatch = append(cs.Dispatch, DOp{Op: "trigger", Stub: t, Healthy: health()})
+			cs.Dispatch = append(cs.Dispatch, DOp{Op: "trigger", Stub: t, Answers: answers()})
 		default:
 			cs.Dispatch = append(cs.Dispatch, DOp{Op: "request", Policy: r.Intn(npol + 1)})
 		}
